@@ -10,7 +10,7 @@ import (
 
 func main() {
 	vlib.Main("C13", "model_checking", func(c *vlib.Ctx) {
-		c.Rule("engine S part: 2-4 database-API messages (query, sub, qsub, create, update, delete, get, cancel) handed to the real DatabaseAPI.Handle, each handled on its own goroutine, on the source-instrumented api, database, record, iterator and hashmap packages; all interleavings within the deviation bound, both default schedulers; reply streams judged per operation ID")
+		c.Rule("engine S part: 2-4 database-API messages (query, sub, qsub, create, update, insert, delete, get, cancel, repeated cancel) handed to the real DatabaseAPI.Handle, each handled on its own goroutine, on the source-instrumented api, database, record, iterator and hashmap packages; all interleavings within the deviation bound, both default schedulers; reply streams judged per operation ID")
 		q := "query tdb:a/"
 		type S struct {
 			m []string
@@ -27,6 +27,14 @@ func main() {
 			{m: []string{"1|qsub|" + q, "2|sub|" + q, `3|create|tdb:a/2|J{"V":2}`}, q: []bool{false, true}},
 			{m: []string{"1|sub|" + q, "1|cancel"}, q: []bool{true}},
 			{m: []string{"1|qsub|" + q, "1|cancel"}, q: []bool{true}},
+			// two cancels for one subscription (the second may be handled while the first is still ending it)
+			{m: []string{"1|sub|" + q, "1|cancel", "1|cancel"}, q: []bool{true}},
+			{m: []string{"1|qsub|" + q, "1|cancel", "1|cancel"}, q: []bool{true}},
+			// writes to a record that a running query is about to deliver (hashmap hands out the stored object itself)
+			{m: []string{"1|query|" + q, "2|delete|tdb:a/1"}},
+			{m: []string{"1|query|" + q, `2|update|tdb:a/1|J{"V":3}`, "3|delete|tdb:a/1"}},
+			{m: []string{"1|qsub|" + q, "2|delete|tdb:a/1", "1|cancel"}, q: []bool{false, true}},
+			{m: []string{"1|query|" + q, `2|insert|tdb:a/1|J{"V":4}`, "3|get|tdb:a/1"}},
 			// the cancel is sent right behind the request (it may overtake it: each message is handled on its own goroutine)
 			{m: []string{"1|sub|" + q, "1|cancel"}},
 			{m: []string{"1|qsub|" + q, "1|cancel"}},
